@@ -572,3 +572,136 @@ func caseMapTerm(e *Explorer, t *smt.Term, upper bool) (*smt.Term, bool) {
 	in := c.BAnd(c.Cmp(smt.OpULe, c.Const(uint64(lo), 8), t), c.Cmp(smt.OpULe, t, c.Const(uint64(hi), 8)))
 	return c.Ite(in, d, t), true
 }
+
+// ---- unicode/utf8.Valid / ValidString as one boolean term (the std loop forks on every symbolic byte) ----
+
+func init() {
+	externals["unicode/utf8.Valid"] = func(fr *frame, args []value) value {
+		bs, _ := args[0].([]value)
+		return utf8ValidVal(fr, bs)
+	}
+	externals["unicode/utf8.ValidString"] = func(fr *frame, args []value) value {
+		bs, _ := strBytes(args[0])
+		return utf8ValidVal(fr, bs)
+	}
+}
+
+// utf8Next is the validation automaton of unicode/utf8: 0 start, 1 one continuation byte to go, 2 two to go,
+// 3/4 second byte after E0/ED, 5 three to go, 6/7 second byte after F0/F4, 8 invalid.
+func utf8Next(st int, b byte) int {
+	in := func(lo, hi byte) bool { return lo <= b && b <= hi }
+	switch st {
+	case 0:
+		switch {
+		case b < 0x80:
+			return 0
+		case b < 0xC2:
+			return 8
+		case b < 0xE0:
+			return 1
+		case b == 0xE0:
+			return 3
+		case b == 0xED:
+			return 4
+		case b < 0xF0:
+			return 2
+		case b == 0xF0:
+			return 6
+		case b < 0xF4:
+			return 5
+		case b == 0xF4:
+			return 7
+		}
+		return 8
+	case 1:
+		if in(0x80, 0xBF) {
+			return 0
+		}
+	case 2:
+		if in(0x80, 0xBF) {
+			return 1
+		}
+	case 3:
+		if in(0xA0, 0xBF) {
+			return 1
+		}
+	case 4:
+		if in(0x80, 0x9F) {
+			return 1
+		}
+	case 5:
+		if in(0x80, 0xBF) {
+			return 2
+		}
+	case 6:
+		if in(0x90, 0xBF) {
+			return 2
+		}
+	case 7:
+		if in(0x80, 0x8F) {
+			return 2
+		}
+	}
+	return 8
+}
+
+func utf8ValidVal(fr *frame, bs []value) value {
+	hasSym := false
+	for _, b := range bs {
+		if _, ok := b.(sym); ok {
+			hasSym = true
+			break
+		}
+	}
+	if !hasSym || fr.i.ex == nil {
+		return notHandled
+	}
+	c := fr.i.ex.Ctx
+	// per state, the successor as a term over a symbolic byte: a chain over the maximal runs of equal successors
+	succ := func(st int, b *smt.Term) *smt.Term {
+		r := c.Const(uint64(utf8Next(st, 0xff)), 8)
+		for hi := 0xfe; hi >= 0; hi-- {
+			if utf8Next(st, byte(hi)) != utf8Next(st, byte(hi+1)) {
+				r = c.Ite(c.Cmp(smt.OpULe, b, c.Const(uint64(hi), 8)), c.Const(uint64(utf8Next(st, byte(hi))), 8), r)
+			}
+		}
+		return r
+	}
+	var st value = 0 // int while concrete, *smt.Term (8 bit) once symbolic
+	for _, b := range bs {
+		switch s := st.(type) {
+		case int:
+			if cb, ok := b.(byte); ok {
+				st = utf8Next(s, cb)
+			} else {
+				st = succ(s, b.(sym).t)
+			}
+		case *smt.Term:
+			var r *smt.Term
+			for k := 8; k >= 0; k-- {
+				var nk *smt.Term
+				if cb, ok := b.(byte); ok {
+					nk = c.Const(uint64(utf8Next(k, cb)), 8)
+				} else {
+					nk = succ(k, b.(sym).t)
+				}
+				if r == nil {
+					r = nk
+				} else {
+					r = c.Ite(c.Eq(s, c.Const(uint64(k), 8)), nk, r)
+				}
+			}
+			st = r
+		}
+		if s, ok := st.(*smt.Term); ok && s.IsConst() {
+			st = int(s.Val)
+		}
+	}
+	switch s := st.(type) {
+	case int:
+		return s == 0
+	case *smt.Term:
+		return mkBoolVal(c.Eq(s, c.Const(0, 8)))
+	}
+	return notHandled
+}
